@@ -254,7 +254,7 @@ add("c14_map_eq_u8", "c14::h_map_eq::<u8, u8, {N}, {M}>()", ["C14"], QP, TP, unw
 add("c14_map_eq_id", "c14::h_map_eq::<Key, Key, {N}, {M}>()", ["C14"], NM([(2, 2)]), NM([(2, 3), (3, 3)]), unwind="max(N,M)+2", fn="PartialEq::eq for Map", shape="S_id")
 add("c14_set_eq_u8", "c14::h_set_eq::<u8, {N}, {M}>()", ["C14"], QP, TP, unwind="max(N,M)+2", fn="PartialEq::eq for Set", shape="S_u8")
 for sh, K, V in (("u8", "u8", "u8"), ("id", "Key", "u8")):
-    add("c15_clone_view_" + sh, "c14::h_clone_view::<%s, %s, {N}>()" % (K, V), ["C15"], Q3, T3, fn="Clone::clone for Map", shape="S_" + sh)
+    add("c15_clone_view_" + sh, "c14::h_clone_view::<%s, %s, {N}>()" % (K, V), ["C15"], Q3, T3 + (N_(5, 6) if sh == "u8" else []), fn="Clone::clone for Map", shape="S_" + sh)
     add("c15_set_clone_view_" + sh, "c14::h_set_clone_view::<%s, {N}>()" % K, ["C15"], Q3, T3, fn="Clone::clone for Set", shape="S_" + sh)
 
 # ------------------------------------------------------------------ C16 bulk construction
@@ -337,8 +337,8 @@ def NL(n, lens):
     return [{"N": n, "A": l} for l in lens]
 
 
-add("c19_display_map", "c19::h_display_map::<{N}>({A})", ["C19", "C06"], NL(2, (0, 1, 2)) + NL(3, (3,)), NL(3, (0, 1, 2, 3)) + NL(4, (4,)), unwind="max(N,4)+2", fn="Display for Map", shape="S_fmt", timeout="30m")
-add("c19_display_set", "c19::h_display_set::<{N}>({A})", ["C19", "C06"], NL(2, (0, 1, 2)) + NL(3, (3,)), NL(3, (0, 1, 2, 3)) + NL(4, (4,)), unwind="max(N,4)+2", fn="Display for Set", shape="S_fmt", timeout="30m")
+add("c19_display_map", "c19::h_display_map::<{N}>({A})", ["C19", "C06"], NL(2, (0, 1, 2)) + NL(3, (3,)), NL(3, (0, 1, 2, 3)) + NL(4, (4,)) + NL(5, (5,)) + NL(6, (6,)), unwind="max(N,4)+2", fn="Display for Map", shape="S_fmt", timeout="30m")
+add("c19_display_set", "c19::h_display_set::<{N}>({A})", ["C19", "C06"], NL(2, (0, 1, 2)) + NL(3, (3,)), NL(3, (0, 1, 2, 3)) + NL(4, (4,)) + NL(5, (5,)) + NL(6, (6,)), unwind="max(N,4)+2", fn="Display for Set", shape="S_fmt", timeout="30m")
 add("c19_debug_map", "c19::h_debug_map::<{N}>(false, {A})", ["C19", "C06"], NL(2, (0, 1, 2)), NL(3, (0, 1, 2, 3)), unwind="max(N,6)+2", fn="Debug for Map ({:?})", shape="S_fmt", timeout="30m")
 add("c19_debug_map_alt", "c19::h_debug_map::<{N}>(true, {A})", ["C19"], NL(1, (0,)), NL(1, (0, 1)), unwind="max(N,6)+2", fn="Debug for Map ({:#?})", shape="S_fmt", timeout="30m")
 add("c19_debug_set", "c19::h_debug_set::<{N}>(false, {A})", ["C19", "C06"], NL(2, (0, 1, 2)), NL(3, (0, 1, 2, 3)), unwind="max(N,6)+2", fn="Debug for Set ({:?})", shape="S_fmt", timeout="30m")
